@@ -25,7 +25,7 @@ func init() {
 			ruleF1(c) // every plugin gets its own full request timeout
 			ruleF3(c) // a plugin failing fatally during an event is dropped, it does not veto the event for later plugins
 		},
-		explanation: "Decides the table and ordering structure behind event delivery: the event constants are 1..13 (UNKNOWN 0, LAST 14), ValidEvents is exactly their bit-or, the printer's name table is total and Set/Clear/IsSet use one bit expression; every relay calls the RPC named like the event it tests in the plugin's subscription mask and returns the zero reply without calling when the bit is clear; every exported event entry point stamps the event named like itself and forwards it; the implementation dispatcher forwards every RPC to the same-named method with the same request; the active plugin list is only written as a filter of itself, nil, or followed by the sort before the lock is released, the comparator orders by the idx field with '<', and idx only ever holds a value that passed the two-digit check; every request method calls its relay exactly once per iteration of one loop over that list and stops at the first error; the list and the relays are only touched under the adaptation lock and the per-request result never escapes. A plugin failing fatally during an event is closed and its relay returns nil (also when the fatal branch falls through to a shared return), so it does not veto the event for the plugins after it.",
+		explanation: "Decides the table and ordering structure behind event delivery: the event constants are 1..13 (UNKNOWN 0, LAST 14), ValidEvents is exactly their bit-or, the printer's name table is total and Set/Clear/IsSet use one bit expression; every relay calls the RPC named like the event it tests in the plugin's subscription mask and returns the zero reply without calling when the bit is clear; every exported event entry point stamps the event named like itself and forwards it; the implementation dispatcher forwards every RPC to the same-named method with the same request; the active plugin list is only written as a filter of itself, nil, or followed by the sort before the lock is released, the comparator orders by the idx field with '<', and idx only ever holds a value that passed the two-digit check; every request method calls its relay exactly once per iteration of one loop over that list and stops at the first error; the list and the relays are only touched under the adaptation lock and the per-request result never escapes. A plugin failing fatally during an event is closed and its relay returns nil (also when the fatal branch falls through to a shared return), so it does not veto the event for the plugins after it. The context a request method hands to a relay is the request's own (no deadline shared by or chained across the plugins).",
 		notDecided: []string{
 			"that ttRPC delivers what was sent",
 			"fairness of sync.Mutex (one common order follows from serialisation under one lock; the mutex itself is trusted)",
